@@ -4,8 +4,10 @@ import (
 	"fmt"
 	"go/token"
 	"go/types"
+	"os"
 	"sort"
 	"strings"
+	"time"
 
 	"golang.org/x/tools/go/callgraph"
 	"golang.org/x/tools/go/ssa"
@@ -61,6 +63,10 @@ type pRoot struct {
 
 const noField = -1
 
+// keyField: pseudo-field under which a map object holds its KEYS (values live under noField), so that a lookup
+// does not return the keys (a map from existing contexts to fresh counters yields fresh counters)
+const keyField = -2
+
 type objField struct {
 	obj   ssa.Value
 	field int
@@ -100,6 +106,126 @@ type pstoreKey struct {
 	idx   int
 	deep  bool
 	field int
+	// one: the store goes into memory EXACTLY ONE load away from the parameter's object (the array behind a
+	// slice cell passed by address); keeps a work-list helper from smearing its elements over everything
+	// reachable from the list
+	one bool
+	// slotT/slotF: the named struct type and field the storing instruction addresses (nil: an element or a
+	// whole-value store).  A store applied at depth to the local objects reachable from an argument only lands in
+	// objects that hold a slotT by value: "gctx.gradient = g" somewhere below a work list does not smear g over
+	// the list's arrays and every edge in them.
+	slotT *types.Named
+	slotF int
+}
+
+// pstoreLevel: 0 the parameter's object, 1 one load away, 2 any depth.
+func pstoreLevel(deep, one bool) int {
+	switch {
+	case deep:
+		return 2
+	case one:
+		return 1
+	}
+	return 0
+}
+
+func mkPstoreKey(fn *ssa.Function, idx, level, field int, slotT *types.Named, slotF int) pstoreKey {
+	if slotT == nil {
+		slotF = 0
+	}
+	return pstoreKey{fn: fn, idx: idx, deep: level >= 2, one: level == 1, field: field, slotT: slotT, slotF: slotF}
+}
+
+// slotOf: the (named struct, field) a store address names directly, or nil.
+func slotOf(addr ssa.Value) (*types.Named, int) {
+	fa, ok := addr.(*ssa.FieldAddr)
+	if !ok {
+		return nil, 0
+	}
+	pt, ok := types.Unalias(fa.X.Type()).Underlying().(*types.Pointer)
+	if !ok {
+		return nil, 0
+	}
+	n, ok := types.Unalias(pt.Elem()).(*types.Named)
+	if !ok || n.TypeArgs().Len() > 0 {
+		return nil, 0
+	}
+	if _, isStruct := n.Underlying().(*types.Struct); !isStruct {
+		return nil, 0
+	}
+	return n, fa.Field
+}
+
+// objType: the type of the memory a local allocation site stands for (nil: not known).
+func objType(obj ssa.Value) types.Type {
+	switch x := obj.(type) {
+	case *ssa.Alloc:
+		if pt, ok := types.Unalias(x.Type()).Underlying().(*types.Pointer); ok {
+			return pt.Elem()
+		}
+	case *ssa.MakeSlice:
+		if sl, ok := types.Unalias(x.Type()).Underlying().(*types.Slice); ok {
+			return types.NewArray(sl.Elem(), 1)
+		}
+	case *ssa.Call:
+		if b, ok := x.Call.Value.(*ssa.Builtin); ok && b.Name() == "append" {
+			if sl, ok := types.Unalias(x.Type()).Underlying().(*types.Slice); ok {
+				return types.NewArray(sl.Elem(), 1)
+			}
+		}
+	}
+	return nil
+}
+
+// holdsSlot: 2 the object IS a slotT, 1 it may hold one by value (or its type is not known), 0 it cannot.
+func holdsSlot(obj ssa.Value, slotT *types.Named) int {
+	t := objType(obj)
+	if t == nil {
+		return 1
+	}
+	if types.Identical(types.Unalias(t), slotT) {
+		return 2
+	}
+	var inside func(t types.Type, depth int) bool
+	inside = func(t types.Type, depth int) bool {
+		if depth > 6 {
+			return true
+		}
+		if types.Identical(types.Unalias(t), slotT) {
+			return true
+		}
+		switch u := types.Unalias(t).Underlying().(type) {
+		case *types.Struct:
+			for i := 0; i < u.NumFields(); i++ {
+				if inside(u.Field(i).Type(), depth+1) {
+					return true
+				}
+			}
+		case *types.Array:
+			return inside(u.Elem(), depth+1)
+		case *types.TypeParam:
+			return true
+		}
+		return false
+	}
+	if inside(t, 0) {
+		return 1
+	}
+	return 0
+}
+
+// growSlot stores t into a local object reached at depth by a store with the given slot.
+func (e *provEngine) growSlot(o ssa.Value, fallbackField int, k pstoreKey, t rootSet) {
+	if k.slotT == nil || e.noSlot {
+		e.growContents(o, fallbackField, t)
+		return
+	}
+	switch holdsSlot(o, k.slotT) {
+	case 2:
+		e.growContents(o, k.slotF, t)
+	case 1:
+		e.growContents(o, noField, t)
+	}
 }
 
 type fnParam struct {
@@ -113,27 +239,30 @@ type callerSite struct {
 }
 
 type provEngine struct {
-	p        *core.Program
-	g        *callgraph.Graph
-	fns      []*ssa.Function
-	analysed map[*ssa.Function]bool
-	pts      map[ssa.Value]rootSet
-	contents map[objField]rootSet
-	fields   map[ssa.Value][]int // fields of an object that have contents
-	pstore   map[pstoreKey]rootSet
-	pkeys    map[fnParam][]pstoreKey
-	callers  map[*ssa.Function][]callerSite
-	ret      map[*ssa.Function][]rootSet
-	mcSites  map[*ssa.Function][]*ssa.MakeClosure
-	callees  map[ssa.Instruction][]*ssa.Function // analysed callees of a call site
-	foreign  map[ssa.Instruction]bool            // the site has a callee outside the module, or none was resolved
-	ptrful   map[types.Type]bool
-	simple   map[*ssa.Alloc]int8
-	cellAt   map[ssa.Instruction][]ssa.Value
-	cellFrom map[cellFromKey][]ssa.Value
-	errorT   types.Type
-	changed  bool
-	Rounds   int
+	p         *core.Program
+	g         *callgraph.Graph
+	fns       []*ssa.Function
+	analysed  map[*ssa.Function]bool
+	pts       map[ssa.Value]rootSet
+	contents  map[objField]rootSet
+	fields    map[ssa.Value][]int // fields of an object that have contents
+	pstore    map[pstoreKey]rootSet
+	pkeys     map[fnParam][]pstoreKey
+	reachMemo map[objField][]ssa.Value
+	deepMemo  map[objField]rootSet
+	noSlot    bool
+	callers   map[*ssa.Function][]callerSite
+	ret       map[*ssa.Function][]rootSet
+	mcSites   map[*ssa.Function][]*ssa.MakeClosure
+	callees   map[ssa.Instruction][]*ssa.Function // analysed callees of a call site
+	foreign   map[ssa.Instruction]bool            // the site has a callee outside the module, or none was resolved
+	ptrful    map[types.Type]bool
+	simple    map[*ssa.Alloc]int8
+	cellAt    map[ssa.Instruction][]ssa.Value
+	cellFrom  map[cellFromKey][]ssa.Value
+	errorT    types.Type
+	changed   bool
+	Rounds    int
 }
 
 type cellFromKey struct {
@@ -168,6 +297,17 @@ func provEngineFor(p *core.Program) *provEngine {
 		errorT:   types.Universe.Lookup("error").Type(),
 	}
 	e.fns = p.ModuleFunctions()
+	// the slot filter of parameter-store summaries relies on typed pointers: off if any analysed package
+	// imports unsafe
+	for _, fn := range e.fns {
+		if fn.Pkg != nil && fn.Pkg.Pkg != nil {
+			for _, imp := range fn.Pkg.Pkg.Imports() {
+				if imp.Path() == "unsafe" {
+					e.noSlot = true
+				}
+			}
+		}
+	}
 	// synthetic wrappers of module functions (method-expression thunks, bound-method closures) that call sites
 	// through function values resolve to: analysed like any other function
 	{
@@ -386,7 +526,25 @@ func (e *provEngine) contentsOf(obj ssa.Value, f int, out rootSet) {
 		return
 	}
 	for _, g := range e.fields[obj] {
+		if g == keyField {
+			continue
+		}
 		out.addAll(e.contents[objField{obj, g}])
+	}
+}
+
+// keysOf: the roots of the keys stored in map objects with the given roots.
+func (e *provEngine) keysOf(s rootSet, out rootSet) {
+	for r := range s {
+		switch r.kind {
+		case rkLocal:
+			out.addAll(e.contents[objField{r.obj, keyField}])
+		case rkParam, rkGlobal:
+			r.deep, r.one = true, false
+			out.add(r)
+		default:
+			out.add(r)
+		}
 	}
 }
 
@@ -411,6 +569,21 @@ func (e *provEngine) loadOf(s rootSet, out rootSet) {
 
 // reachFrom: the local objects reachable from field f of obj by one or more loads.
 func (e *provEngine) reachFrom(obj ssa.Value, f int) []ssa.Value {
+	// memoised per round: contents only grow, a stale answer inside a round is completed by
+	// the next round (any growth sets e.changed)
+	mk := objField{obj, f}
+	if w, ok := e.reachMemo[mk]; ok {
+		return w
+	}
+	w := e.reachFromUncached(obj, f)
+	if e.reachMemo == nil {
+		e.reachMemo = map[objField][]ssa.Value{}
+	}
+	e.reachMemo[mk] = w
+	return w
+}
+
+func (e *provEngine) reachFromUncached(obj ssa.Value, f int) []ssa.Value {
 	first := rootSet{}
 	e.contentsOf(obj, f, first)
 	seen := map[ssa.Value]bool{}
@@ -448,14 +621,28 @@ func (e *provEngine) deepOf(s rootSet, out rootSet) {
 	for r := range s {
 		switch r.kind {
 		case rkLocal:
-			c := rootSet{}
-			e.contentsOf(r.obj, r.field, c)
-			addDeep(c)
-			for _, o := range e.reachFrom(r.obj, r.field) {
+			// memoised per round like reachFrom
+			mk := objField{r.obj, r.field}
+			m, ok := e.deepMemo[mk]
+			if !ok {
+				m = rootSet{}
+				outer := out
+				out = m
 				c := rootSet{}
-				e.contentsOf(o, noField, c)
+				e.contentsOf(r.obj, r.field, c)
 				addDeep(c)
+				for _, o := range e.reachFrom(r.obj, r.field) {
+					c := rootSet{}
+					e.contentsOf(o, noField, c)
+					addDeep(c)
+				}
+				out = outer
+				if e.deepMemo == nil {
+					e.deepMemo = map[objField]rootSet{}
+				}
+				e.deepMemo[mk] = m
 			}
+			out.addAll(m)
 		case rkParam, rkGlobal:
 			r.deep, r.one = true, false
 			out.add(r)
@@ -802,6 +989,10 @@ func (e *provEngine) eval(v ssa.Value) rootSet {
 		case *ssa.Next:
 			if rng, ok := t.Iter.(*ssa.Range); ok && x.Index > 0 {
 				out := rootSet{}
+				if _, isMap := types.Unalias(rng.X.Type()).Underlying().(*types.Map); isMap && x.Index == 1 {
+					e.keysOf(e.get(rng.X), out)
+					return out
+				}
 				e.loadOf(e.get(rng.X), out)
 				return out
 			}
@@ -878,6 +1069,13 @@ func (e *provEngine) growPstore(k pstoreKey, add rootSet) {
 	}
 	s := e.pstore[k]
 	if s == nil {
+		if os.Getenv("QVERIF_DEBUG") == "3" && k.fn.Name() == "Mul" {
+			fmt.Fprintf(os.Stderr, "NEWKEY Mul #%d deep=%v one=%v f=%d at %s adding:", k.idx, k.deep, k.one, k.field, dbgSite)
+			for r := range add {
+				fmt.Fprintf(os.Stderr, " %s", e.rootString(r))
+			}
+			fmt.Fprintln(os.Stderr)
+		}
 		s = rootSet{}
 		e.pstore[k] = s
 		e.pkeys[fnParam{k.fn, k.idx}] = append(e.pkeys[fnParam{k.fn, k.idx}], k)
@@ -889,20 +1087,35 @@ func (e *provEngine) growPstore(k pstoreKey, add rootSet) {
 
 // storeEffect records that values with roots val are stored into memory with roots addr.
 func (e *provEngine) storeEffect(addr, val rootSet) {
+	e.storeEffectAt(nil, addr, val)
+}
+
+// storeEffectAt: as storeEffect, with the address operand of the storing instruction (names the slot written).
+func (e *provEngine) storeEffectAt(addrVal ssa.Value, addr, val rootSet) {
 	if len(val) == 0 {
 		return
+	}
+	var slotT *types.Named
+	slotF := 0
+	if addrVal != nil {
+		slotT, slotF = slotOf(addrVal)
 	}
 	for r := range addr {
 		switch r.kind {
 		case rkLocal:
 			e.growContents(r.obj, r.field, val)
 		case rkParam:
-			e.growPstore(pstoreKey{r.fn, r.idx, r.deep || r.one, r.field}, val)
+			e.growPstore(mkPstoreKey(r.fn, r.idx, pstoreLevel(r.deep, r.one), r.field, slotT, slotF), val)
 		}
 	}
 }
 
+var dbgSite string
+
 func (e *provEngine) callEffects(site ssa.CallInstruction) {
+	if os.Getenv("QVERIF_DEBUG") == "3" {
+		dbgSite = site.Parent().String() + ": " + site.String()
+	}
 	c := site.Common()
 	switch s45_builtinName(c) {
 	case "append":
@@ -962,15 +1175,31 @@ func (e *provEngine) callEffects(site ssa.CallInstruction) {
 					}
 					switch r.kind {
 					case rkLocal:
-						if !k.deep {
-							e.growContents(r.obj, f, t)
-						} else {
+						switch {
+						case k.deep:
 							for _, o := range e.reachFrom(r.obj, f) {
-								e.growContents(o, noField, t)
+								e.growSlot(o, noField, k, t)
 							}
+						case k.one:
+							first := rootSet{}
+							e.contentsOf(r.obj, f, first)
+							for r2 := range first {
+								switch r2.kind {
+								case rkLocal:
+									if r2.field != noField {
+										e.growContents(r2.obj, r2.field, t)
+									} else {
+										e.growSlot(r2.obj, noField, k, t)
+									}
+								case rkParam:
+									e.growPstore(mkPstoreKey(r2.fn, r2.idx, pstoreLevel(r2.deep, r2.one), r2.field, k.slotT, k.slotF), t)
+								}
+							}
+						default:
+							e.growContents(r.obj, f, t)
 						}
 					case rkParam:
-						e.growPstore(pstoreKey{r.fn, r.idx, k.deep || r.deep || r.one, f}, t)
+						e.growPstore(mkPstoreKey(r.fn, r.idx, pstoreLevel(k.deep, k.one)+pstoreLevel(r.deep, r.one), f, k.slotT, k.slotF), t)
 					}
 				}
 			}
@@ -981,6 +1210,8 @@ func (e *provEngine) callEffects(site ssa.CallInstruction) {
 func (e *provEngine) solve() {
 	for {
 		e.changed = false
+		e.reachMemo = nil
+		e.deepMemo = nil
 		e.Rounds++
 		for _, fn := range e.fns {
 			for _, b := range fn.Blocks {
@@ -1000,14 +1231,35 @@ func (e *provEngine) solve() {
 							if ld, ok := x.Val.(*ssa.UnOp); ok && ld.Op == token.MUL && s45_isStruct(x.Val.Type()) && e.copyFieldwise(e.get(x.Addr), e.get(ld.X)) {
 								break
 							}
-							e.storeEffect(e.get(x.Addr), e.get(x.Val))
+							e.storeEffectAt(x.Addr, e.get(x.Addr), e.get(x.Val))
 						}
 					case *ssa.MapUpdate:
 						if e.pointerful(x.Value.Type()) {
 							e.storeEffect(e.get(x.Map), e.get(x.Value))
 						}
 						if e.pointerful(x.Key.Type()) {
-							e.storeEffect(e.get(x.Map), e.get(x.Key))
+							// keys are kept apart from values in local map objects
+							keys := e.get(x.Key)
+							local := rootSet{}
+							other := rootSet{}
+							for r := range e.get(x.Map) {
+								if r.kind == rkLocal {
+									local.add(r)
+								} else {
+									other.add(r)
+								}
+							}
+							for r := range local {
+								e.growContents(r.obj, keyField, keys)
+							}
+							for r := range other {
+								if r.kind == rkParam && !r.deep && !r.one && r.field == noField {
+									// a map handed in as a parameter: remember the keys as keys for the caller's map object
+									e.growPstore(mkPstoreKey(r.fn, r.idx, 0, keyField, nil, 0), keys)
+								} else {
+									e.storeEffect(rootSet{r: {}}, keys)
+								}
+							}
 						}
 					case *ssa.Send:
 						if e.pointerful(x.X.Type()) {
@@ -1026,6 +1278,59 @@ func (e *provEngine) solve() {
 					}
 				}
 			}
+		}
+		if os.Getenv("QVERIF_DEBUG") != "" {
+			tp, tc, tps := 0, 0, 0
+			for _, s := range e.pts {
+				tp += len(s)
+			}
+			for _, s := range e.contents {
+				tc += len(s)
+			}
+			for _, s := range e.pstore {
+				tps += len(s)
+			}
+			if os.Getenv("QVERIF_DEBUG") == "4" && e.Rounds <= 4 {
+				for k, s := range e.contents {
+					if in, ok := k.obj.(ssa.Instruction); ok && in.Parent() != nil && (in.Parent().Name() == "count" || in.Parent().Name() == "push" || in.Parent().Name() == "rootEdge") {
+						fmt.Fprintf(os.Stderr, "  R%d CNT %s in %s f=%d:\n", e.Rounds, k.obj.String(), in.Parent().Name(), k.field)
+						for _, r := range s.sorted(e) {
+							fmt.Fprintf(os.Stderr, "      %s\n", e.rootString(r))
+						}
+					}
+				}
+				for k, s := range e.pstore {
+					if k.fn.Name() == "push" || k.fn.Name() == "pushAll" || k.fn.Name() == "pop" || k.fn.Name() == "register" {
+						fmt.Fprintf(os.Stderr, "  R%d PST %s #%d deep=%v one=%v f=%d:\n", e.Rounds, k.fn.Name(), k.idx, k.deep, k.one, k.field)
+						for _, r := range s.sorted(e) {
+							fmt.Fprintf(os.Stderr, "      %s\n", e.rootString(r))
+						}
+					}
+				}
+				for fn, rs := range e.ret {
+					if fn.Name() == "pop" || fn.Name() == "register" || fn.Name() == "gradContextOf" {
+						for i, s := range rs {
+							fmt.Fprintf(os.Stderr, "  R%d RET %s %d:\n", e.Rounds, fn.Name(), i)
+							for _, r := range s.sorted(e) {
+								fmt.Fprintf(os.Stderr, "      %s\n", e.rootString(r))
+							}
+						}
+					}
+				}
+			}
+			if os.Getenv("QVERIF_DEBUG") == "2" && e.Rounds <= 5 {
+				for k, s := range e.pstore {
+					if len(s) > 8 {
+						fmt.Fprintf(os.Stderr, "  PST %s #%d deep=%v one=%v f=%d -> %d\n", k.fn.String(), k.idx, k.deep, k.one, k.field, len(s))
+					}
+				}
+				for k, s := range e.contents {
+					if len(s) > 20 {
+						fmt.Fprintf(os.Stderr, "  CNT %s@%s f=%d -> %d\n", k.obj.String(), e.p.Prog.Fset.Position(k.obj.Pos()), k.field, len(s))
+					}
+				}
+			}
+			fmt.Fprintf(os.Stderr, "DBG solve round %d changed=%v pts=%d/%d contents=%d/%d pstore=%d/%d %s\n", e.Rounds, e.changed, len(e.pts), tp, len(e.contents), tc, len(e.pstore), tps, time.Now().Format("15:04:05"))
 		}
 		if !e.changed || e.Rounds > 200 {
 			return
@@ -1219,6 +1524,9 @@ func (e *provEngine) posOfValue(v ssa.Value) string {
 func s45_fieldLabel(t types.Type, f int) string {
 	if f == noField {
 		return ""
+	}
+	if f == keyField {
+		return ".keys"
 	}
 	if p, ok := types.Unalias(t).Underlying().(*types.Pointer); ok {
 		t = p.Elem()
